@@ -766,6 +766,11 @@ class _PCovCUR(GreedySelector):
         features, orthogonalizes the features by those already selected, and computes
         their initial importance.
         """
+        # work on the data passed to this call, not on the array objects remembered
+        # from the first fit (the caller may have reused those buffers since)
+        self.X_ref_ = X
+        self.y_ref_ = y
+
         for c in self.selected_idx_:
             if self.recompute_every != 0 and (
                 np.linalg.norm(np.take(self.X_current_, [c], axis=self._axis))
